@@ -89,8 +89,8 @@ def do_tour(ctx, n, k1, f5, modes):
     g = tour.Graph(tlc.printed(r, 'EDGE'))
     paths = g.tour()
     info = dict(config=n, edges=len(g.edges), states=len(g.states), paths=len(paths), steps=sum(map(len, paths)), conform={})
-    for mode in modes:
-        k, steps, bad = tour.replay_tour(mode, prog, rep, paths)
+    results = tour.replay_tour_parallel([(mode, prog, rep, paths) for mode in modes], procs=12)
+    for mode, (k, steps, bad) in zip(modes, results):
         info['conform'][mode] = dict(paths_replayed=k, steps=steps, mismatches=len(bad))
         ctx.count(evaluations=steps, distinct=len(g.edges))
         if bad:
@@ -304,6 +304,76 @@ def interleaved_generators(ctx, rng):
         sess.close_loop()
         return out
 
+    def across_reconnect(mode, with_close, k):
+        """A generator of the previous connection is still being consumed after the caller reconnected (the device side restarted and
+        numbers its streams from the start again); the operations of the new connection must get exactly their own output."""
+        dev = simdev.SimDevice(chooser=simdev.Seeded(k), seed=k)
+        dev.shell_scripts[b'shell:old'] = [b'A1;', b'A2;', b'A3;']
+        dev.shell_scripts[b'shell:new'] = [b'B1;', b'B2;']
+        dev.shell_scripts[b'shell:whole'] = [b'w1;', b'w2;']
+        sess = env.Session(mode, dev)
+        sess.call('connect')
+        out = dict(new=[], old=[], whole=None)
+
+        def drive_sync():
+            ga = iter(sess.device.streaming_shell('old', decode=False, read_timeout_s=2.0))
+            out['old'].append(next(ga))
+            if with_close:
+                sess.device.close()
+            sess.device.connect()
+            gb = iter(sess.device.streaming_shell('new', decode=False, read_timeout_s=2.0))
+            order = ['b', 'a', 'w', 'b', 'a', 'b'] if k % 2 else ['a', 'b', 'b', 'w', 'a', 'b']
+            for who in order:
+                try:
+                    if who == 'w':
+                        out['whole'] = sess.device.shell('whole', decode=False, read_timeout_s=2.0)
+                    elif who == 'a':
+                        out['old'].append(next(ga))
+                    else:
+                        out['new'].append(next(gb))
+                except StopIteration:
+                    pass
+                except Exception as e:  # noqa
+                    out.setdefault('errors', []).append((who, type(e).__name__))
+
+        async def drive_async():
+            ga = sess.device.streaming_shell('old', decode=False, read_timeout_s=2.0).__aiter__()
+            out['old'].append(await ga.__anext__())
+            if with_close:
+                await sess.device.close()
+            await sess.device.connect()
+            gb = sess.device.streaming_shell('new', decode=False, read_timeout_s=2.0).__aiter__()
+            order = ['b', 'a', 'w', 'b', 'a', 'b'] if k % 2 else ['a', 'b', 'b', 'w', 'a', 'b']
+            for who in order:
+                try:
+                    if who == 'w':
+                        out['whole'] = await sess.device.shell('whole', decode=False, read_timeout_s=2.0)
+                    elif who == 'a':
+                        out['old'].append(await ga.__anext__())
+                    else:
+                        out['new'].append(await gb.__anext__())
+                except StopAsyncIteration:
+                    pass
+                except Exception as e:  # noqa
+                    out.setdefault('errors', []).append((who, type(e).__name__))
+        sess.rebind_clock()
+        if mode == 'sync':
+            drive_sync()
+        else:
+            sess.loop.run_until_complete(drive_async())
+        sess.close_loop()
+        return out
+
+    for mode in ('sync', 'async'):
+        for with_close in (True, False):
+            for k in range(4):
+                out = across_reconnect(mode, with_close, k)
+                n += 1
+                errs_new = [e for e in out.get('errors', []) if e[0] != 'a']
+                stale_got_foreign = any(not bytes(x).startswith(b'A') for x in out['old'])
+                if out['new'] != [b'B1;', b'B2;'] or out['whole'] != b'w1;w2;' or errs_new or stale_got_foreign:
+                    ctx.violation('C06.SameAsAlone', dict(kind='operations of a new connection next to a generator left over from the previous one', mode=mode, close_before_connect=with_close,
+                                                          order_variant=k, observed={a: repr(b)[:120] for a, b in out.items()}))
     for mode in ('sync', 'async'):
         for nab in (0, 3, 70, 300):
             out = long_lived(mode, nab)
